@@ -371,8 +371,10 @@ async def _main(case, obs, loop, net):
     deadline = loop._vtime + bound
     want = case.get("drain_hint")
     idle = 0
-    idle_from = 0
-    idle_cap = 6 + int((case["cfg"].get("metadata_max_age_ms", 5000) / 1000.0 + 2.0) / 0.2)
+    scan_from = 0
+    last_trouble = [0.0]
+    quiet_need = max(1.2, 2 * case["cfg"].get("fetch_max_wait_ms", 100) / 1000.0 + 0.4)
+    idle_cap = 6 + int((case["cfg"].get("metadata_max_age_ms", 5000) / 1000.0 + 2.0 + quiet_need) / 0.2)
     while loop._vtime < deadline:
         how = case.get("drain", "getmany")
         ev = {"op": how, "task": -1, "t_call": loop._vtime, "filter": [], "max_records": None, "drain": True}
@@ -403,14 +405,16 @@ async def _main(case, obs, loop, net):
         obs.events.append(ev)
         if not ev["records"]:
             idle += 1
-            if idle == 1:
-                idle_from = len(c.arrivals)
             if idle >= 6 and case.get("drain_stop_idle", True):
-                # idle only counts as "drained" when the brokers were quiet as well: a client that is still being
-                # answered with errors (e.g. ListOffsets at a stale leader until the next metadata refresh) is
-                # recovering, not finished
-                if idle < idle_cap and any(_reply_has_error(a.reply) or a.fault for a in c.arrivals[idle_from:]):
-                    idle_from = len(c.arrivals)
+                # idle only counts as "drained" when the brokers have been quiet as well, for longer than a fetch
+                # long-poll: a client that is still being answered with errors (e.g. ListOffsets at a stale leader
+                # until the next metadata refresh), or whose recovered partition waits for the node's in-flight
+                # long-poll to return, is recovering, not finished
+                for a in c.arrivals[scan_from:]:
+                    if _reply_has_error(a.reply) or a.fault:
+                        last_trouble[0] = max(last_trouble[0], a.t_end if a.t_end is not None else a.t)
+                scan_from = len(c.arrivals)
+                if idle < idle_cap and loop._vtime - last_trouble[0] < quiet_need:
                     continue
                 break
         else:
